@@ -39,6 +39,10 @@ func c15Name(f int, defaultScenario bool) string {
 	return c15Files[f]
 }
 
+// a version numbered 1000*k + b differs from version b of the same file in its front-matter only: the bytes after the
+// front-matter block are those of version b (an edit that touches nothing but the front-matter)
+func c15Body(cid int) int { return cid % 1000 }
+
 func c15Content(f, cid int, valid, layoutScenario bool) string {
 	if !valid {
 		return "---\nv: [unclosed\n---\n<p>broken" + fmt.Sprint(cid) + "</p>"
@@ -50,11 +54,11 @@ func c15Content(f, cid int, valid, layoutScenario bool) string {
 			fm += "layout: lay\n"
 		}
 		// elements whose evaluation writes attributes, driven by a front-matter value that changes from version to version
-		body := fmt.Sprintf("<p>P%d v={{ v }}</p><template include=\"comp.vuego\"></template>", cid) + c15Toggles +
+		body := fmt.Sprintf("<p>P%d v={{ v }}</p><template include=\"comp.vuego\"></template>", c15Body(cid)) + c15Toggles +
 			// a variable of the front-matter is read, then assigned at the page's root scope: the assignment belongs to this render only
 			`<u>{{ st }}</u><template st="late" :v2="v"></template><u>{{ st }}</u>`
 		if layoutScenario { // a named slot handed to the layout: its nodes must not be shared with the cache
-			body += fmt.Sprintf("<template #side><em>S%d</em></template>", cid)
+			body += fmt.Sprintf("<template #side><em>S%d</em></template>", c15Body(cid))
 		}
 		return fm + "---\n" + body
 	case 1:
@@ -136,8 +140,13 @@ func c15Project(out string, err error, reads map[string]int) Obs {
 		if m == nil {
 			return A("-")
 		}
-		if both && m[1] != m[2] {
-			return A(m[1] + "/v" + m[2])
+		if both { // the page: the version is the one its front-matter names, and the body must be that version's body
+			var v int
+			fmt.Sscan(m[2], &v)
+			if m[2] == "" || fmt.Sprint(c15Body(v)) != m[1] {
+				return A(m[1] + "/v" + m[2])
+			}
+			return A(m[2])
 		}
 		return A(m[1])
 	}
@@ -174,8 +183,18 @@ func runC15(r *Run) {
 		clock := 10
 		lastT := map[int]int{}
 		inGuard := true
+		lastCid := map[int]int{}
 		edit := func(f int, valid bool) c15Op {
 			cid++
+			id := cid
+			if f == 0 && valid && lastCid[0] != 0 && lastCid[0] < 3000 && rr.Intn(3) == 0 { // only the page's front-matter changes
+				id = lastCid[0] + 1000
+			}
+			if valid {
+				lastCid[f] = id
+			} else {
+				lastCid[f] = 0
+			}
 			var t int
 			switch {
 			case guardedHist || rr.Intn(10) < 5:
@@ -189,7 +208,7 @@ func runC15(r *Run) {
 				t = 1 + rr.Intn(clock) // possibly backwards, possibly equal to a remembered one
 			}
 			lastT[f] = t
-			return c15Op{kind: "edit", f: f, cid: cid, valid: valid, t: t}
+			return c15Op{kind: "edit", f: f, cid: id, valid: valid, t: t}
 		}
 		// initial files
 		ops = append(ops, edit(0, true), edit(1, true))
